@@ -819,6 +819,22 @@ def rule_r8(ctx) -> List[R.Inst]:
         else:
             insts.append(R.ok(rid, key, file, gnode.lineno,
                               idiom=f"'{f}' is tested for emptiness in the header and " + ("not used raw in the body" if not bad else "cannot be empty after a read")))
+    # contradiction on the sentinel: the reader's value for "tag absent" is an empty literal (b""), never None — a test `self.f is None`
+    # / `is not None` can then never see the unset case, and code guarded by it treats the empty value as a real one
+    for f in sorted({C.self_attr(n.targets[0]) for n in walk_no_nested(rd.node) if isinstance(n, ast.Assign) and C.self_attr(n.targets[0]) and
+                     isinstance(n.value, ast.Call) and call_name(n.value) == "get" and len(n.value.args) == 2 and
+                     isinstance(n.value.args[1], ast.Constant) and n.value.args[1].value in (b"", "")}):
+        for q_, fq in sorted(M.funcs.items()):
+            if fq.mod != hdr.mod or "_read" in fq.name or fq.name == "read":
+                continue
+            for n in ast.walk(fq.node):
+                if isinstance(n, ast.Compare) and len(n.ops) == 1 and isinstance(n.ops[0], (ast.Is, ast.IsNot)) and C.self_attr(n.left) == f and \
+                        isinstance(n.comparators[0], ast.Constant) and n.comparators[0].value is None:
+                    insts.append(R.viol(rid, f"sentinel:{f}", file, n.lineno,
+                                        f"'{unparse(n)}' in {fq.name}: the reader stores an EMPTY value in '{f}' for a file without the tag, never None, so "
+                                        f"this test cannot tell 'not set' from 'set': the empty value is used as if it were a real one (an empty "
+                                        f"#LNOBJ id: no id is declared and every hold tail is written as nothing)",
+                                        construct=f"{fq.name}: {unparse(n)}"))
     if not insts:
         insts.append(R.ok(rid, "empty:none", file, hdr.node.lineno, idiom="no field is emitted under an emptiness test"))
     return insts
